@@ -1265,7 +1265,7 @@ def unique_values(x, /):
     x = x.flatten()
     values = np.unique(x.data)
     if x.nnz < x.size:
-        values = np.sort(np.concatenate([[x.fill_value], values]))
+        values = np.unique(np.concatenate([[x.fill_value], values]))
     return values
 
 
